@@ -460,6 +460,28 @@ def autoLimit (t : Lookup2d) (c105 : Rat) : Option Rat :=
   | .fin b :: _ => some b
   | _ => none
 
+/-! ## Configuration of the blasters a front end builds -/
+
+/-- An `NBlaster(kw=expr, …)` built inside a front end (`nblast`, `nblast_allbyall`, `nblast_smart`): a
+constructor parameter that is forwarded takes the value of the forwarded front-end argument, one that is not
+forwarded silently falls back to the constructor's default. -/
+def siteConfig {V : Type} (forwarded : List (String × String)) (args dflt : String → V) (param : String) : V :=
+  match forwarded.find? (fun kv => kv.1 == param) with
+  | some kv => args kv.2
+  | none => dflt param
+
+/-- The constructor parameters that decide a score, with the front-end argument each must receive
+(`progress` only drives the progress bar). -/
+def scoringForward : List (String × String) :=
+  [("approx_nn", "approx_nn"), ("dtype", "precision"), ("limit_dist", "limit_dist"), ("normalized", "normalized"),
+   ("smat", "smat"), ("smat_kwargs", "smat_kwargs"), ("use_alpha", "use_alpha")]
+
+/-- Self hits and neurons are appended to a job's blaster with the same index into matching lists. -/
+def appendAligned (s : String × String × String × String × String) : Bool :=
+  s.2.2.1 == s.2.2.2.2 &&
+  [("query_dps", "query_self_hits"), ("target_dps", "target_self_hits"), ("query_dps_simp", "query_self_hits"),
+   ("target_dps_simp", "target_self_hits"), ("dps", "self_hits")].contains (s.2.1, s.2.2.2.1)
+
 /-! ## Checker evaluated on the implementation's own output -/
 
 /-- Does bin `i` of the table declared by `ivs` contain `v`, the outermost bins being open-ended
